@@ -3,6 +3,7 @@ C18 — Export followed by import reproduces the data.
 -/
 import DefraModel.Backup
 import DefraModel.Proofs.BackupIds
+import DefraModel.Proofs.BackupExport
 namespace Defra.Props.C18
 open Defra Defra.Backup
 
@@ -70,5 +71,43 @@ theorem pinned_export_breaks_chains (H : Nat → Option Nat → Nat) :
 /-- ... and for chains of two the repository's exporter agrees with the documented one -/
 theorem pinned_export_ok_for_pairs (H : Nat → Option Nat → Nat) (a b : Nat) :
     exportPinned H [⟨a, none⟩, ⟨b, some 0⟩] = exportSpec H [⟨a, none⟩, ⟨b, some 0⟩] := rfl
+
+/-! ### the exporter and the importer as they are (`Backup/Export.lean`, compared record by record with /repo by `drv backup`) -/
+open Defra.Backup.Export in
+/-- **what the file holds**: for every set of documents of a self-referencing collection in which no referenced
+    document references another one — any number of documents, in any key order, with self references, references to
+    deleted documents, and documents changed since they were created (old and new identifiers differ) — the exporter
+    (loop, `keyChangeCache`, recomputed foreign documents, self-reference fix-up) writes for every document its content,
+    the NEW identifier of the document it references, and its own new identifier -/
+theorem export_writes_new_identifier_of_every_target (store : List Emp)
+    (hn : noChain store = true) (hnd : (store.map (·.id)).Nodup) :
+    exportImpl store = store.map (specRec store) := exportImpl_eq_spec hn hnd
+
+open Defra.Backup.Export in
+/-- **export followed by import reproduces the documents and their relations** under the recorded mapping, for the same
+    stores: every foreign key in the file is the recorded new identifier of the live document it referenced (nil when
+    that document is gone), and the importer — which detects a self reference by `boss_id = _docIDNew` — gives every
+    record exactly the identifier recorded for it.  PARTIAL: the statement for all stores is false, see below -/
+theorem export_import_round_trip_partial (store : List Emp)
+    (hn : noChain store = true) (hnd : (store.map (·.id)).Nodup) : roundTripOk store = true :=
+  roundTrip_of_noChain hn hnd
+
+open Defra.Backup.Export in
+/-- **known finding, proved of the mirror of the real exporter**: a chain c -> b -> a of unchanged documents is exported
+    with c's key pointing at an identifier no document has -/
+theorem export_import_round_trip_fails_on_a_chain :
+    let store : List Emp := [⟨[10], 10, none⟩, ⟨[11, 10], 11, some [10]⟩, ⟨[12, 11, 10], 12, some [11, 10]⟩]
+    noChain store = false ∧ roundTripOk store = false ∧
+    ((exportImpl store)[2]?).map (·.fk) = some (some [11]) ∧ newOf (exportImpl store) [11, 10] = some [11, 10] := by
+  decide
+
+/-! non-vacuity of the hypotheses: a changed document (identifier differs from the recomputed one), a reference to it
+    listed before it, a self reference and a reference to a deleted document -/
+open Defra.Backup.Export in
+example :
+    let store : List Emp := [⟨[3, 1], 3, some [1]⟩, ⟨[1], 9, none⟩, ⟨[4], 4, some [4]⟩, ⟨[5, 77], 5, some [77]⟩]
+    noChain store = true ∧ (store.map (·.id)).Nodup ∧
+    exportImpl store = [⟨[3, 1], 3, some [9], [3, 9]⟩, ⟨[1], 9, none, [9]⟩, ⟨[4], 4, some [4], [4]⟩, ⟨[5, 77], 5, none, [5]⟩] := by
+  decide
 
 end Defra.Props.C18
